@@ -188,7 +188,8 @@ def r2(ctx):
             target = s
     if target is None:
         raise AnalysisError("_retrieve_optimization_results does not assign .clusters")
-    t = target.value
+    # what the gather *reads* through a fresh shallow copy of the state is the state's own field (same objects)
+    t = tm.unshallow(target.value)
 
     def paired(elt, var):
         gets = [x for x in tm.subterms(elt) if isinstance(x, App) and x.fn in (".get", ".result")]
